@@ -313,5 +313,10 @@ func genEntity(repo string) (string, error) {
 	sb.WriteString("(* go.mod: github.com/iancoleman/strcase version; occurrences of ConfigureAcronym in the module's .go files *)\n")
 	fmt.Fprintf(&sb, "Definition strcase_version : string := %s.\n", gen.CoqString(ver))
 	fmt.Fprintf(&sb, "Definition configure_acronym_occurrences : N := %d.\n", acronymCalls)
+	readme, err := readmeFacts(repo)
+	if err != nil {
+		return "", err
+	}
+	sb.WriteString(readme)
 	return sb.String(), nil
 }
